@@ -193,7 +193,7 @@ class Config:
     """per-check configuration of the interpreter"""
 
     def __init__(self, inline=(), pure=(), opaque=(), inline_all_fcppt=False, max_depth=40,
-                 loop_bound=2, hooks=None, pure_prefixes=(), inline_prefixes=(), record_prefixes=(), ref_writes=False, max_steps=20000, lvalues=False):
+                 loop_bound=2, hooks=None, pure_prefixes=(), inline_prefixes=(), record_prefixes=(), ref_writes=False, max_steps=20000, lvalues=False, iter_positions=False):
         self.inline = set(inline)
         self.pure = set(pure)
         self.opaque = set(opaque)
@@ -211,6 +211,9 @@ class Config:
         # opt-in storage model: assignments through member / element / accessor expressions update the variable they reach
         # (locations are access paths rooted at variables; values stay immutable terms), reference parameters bind locations
         self.lvalues = lvalues
+        # opt-in (needs lvalues): std iterators are positions -- ++ / -- update the variable, std::next / std::prev / + / - build
+        # base +- k terms, * is the pure term deref(position), == / != are comparison atoms on positions
+        self.iter_positions = iter_positions
 
 
 class Interp:
@@ -854,6 +857,37 @@ class Interp:
                 return None
         return None
 
+    def iter_op(self, unit, n, d, qn, short, env, this):
+        """position semantics of a member / free operator of a std iterator class; None when not applicable"""
+        operands = ([n["recv"]] if n.get("recv") is not None else []) + list(n.get("args", []))
+        if short in ("operator++", "operator--") and operands:
+            l = self.lv(unit, operands[0], env, this)
+            old = self.load(l) if l is not None else self.eval(unit, operands[0], env, this)
+            new = self.arith("+" if short == "operator++" else "-", old, ("k", "1"))
+            if l is not None:
+                self.store_loc(l, new)
+            return old if len(operands) == 2 else new       # the postfix form has a dummy int argument
+        if short == "operator*" and len(operands) == 1:
+            return ("app", "deref", (self.eval(unit, operands[0], env, this),))
+        if short == "operator->" and len(operands) == 1:
+            return ("addr", ("app", "deref", (self.eval(unit, operands[0], env, this),)))
+        if short in ("operator==", "operator!=") and len(operands) == 2:
+            a, b = [self.eval(unit, x, env, this) for x in operands]
+            return self.compare(short[-2:], a, b)
+        if short in ("operator+", "operator-") and len(operands) == 2:
+            a, b = [self.eval(unit, x, env, this) for x in operands]
+            return self.arith(short[-1], a, b)
+        if short in ("operator+=", "operator-=") and len(operands) == 2:
+            l = self.lv(unit, operands[0], env, this)
+            if l is None:
+                return None
+            new = self.arith(short[-2], self.load(l), self.eval(unit, operands[1], env, this))
+            self.store_loc(l, new)
+            return new
+        if short == "base" and len(operands) == 1:
+            return self.eval(unit, operands[0], env, this)
+        return None
+
     def arg_locs(self, unit, n, d, env, this):
         prefs = d.get("prefs") or []
         out = []
@@ -1042,7 +1076,14 @@ class Interp:
                     raise Unsupported("no matching call operator for lambda at %s" % loc)
                 return self.apply_lambda_op(recv, op, args)
             return self.event("call", [recv] + args, loc, label="call")
+        if self.cfg.iter_positions and _is_std_iter(d):
+            r = self.iter_op(unit, n, d, qn, short, env, this)
+            if r is not None:
+                return r
         args = [self.eval(unit, a, env, this) for a in n.get("args", [])]
+        if self.cfg.iter_positions and qn in ("std::next", "std::prev") and args:
+            k = args[1] if len(args) > 1 else ("k", "1")
+            return self.arith("+" if qn == "std::next" else "-", args[0], k)
         hook = self.cfg.hooks.get(qn)
         if hook is not None:
             r = hook(self, recv, args, d, unit, n)
@@ -1239,6 +1280,18 @@ class Interp:
             if b and isinstance(a, tuple) and a[0] == "app" and a[1].startswith("holds<") and a[2] == (v,) and a[1] != "holds<%s>" % ty:
                 return FALSE
         return ("app", "holds<%s>" % ty, (v,))
+
+
+def _is_std_iter(d):
+    q = d.get("qn") or ""
+    if not (q.startswith("std::") or q.startswith("__gnu_cxx::")):
+        return False
+    head = q.split("(")[0]
+    return "iterator" in head.lower() or head.startswith("__gnu_cxx::operator") or bool(_re_iter_free.match(head))
+
+
+import re as _re_mod
+_re_iter_free = _re_mod.compile(r"^std::operator(==|!=|\+|-)$")
 
 
 def _elems(v):
